@@ -91,9 +91,21 @@ func RunUnit(u *Unit, shard, nshards int, deadline time.Time, boundOverride int)
 	// violation seen only here would mean the controlled world does not over-approximate the
 	// real one within the explored bound.
 	freeRuns, freeViol := 0, 0
-	if n := freeRunCount(); n > 0 && u.Check != nil && !u.Env && e.HarnessErr == "" {
+	// (skipped once the exploration has found a violation: the code is already known to be
+	// broken, and a free-running execution of a deadlocking change would never return)
+	if n := freeRunCount(); n > 0 && u.Check != nil && !u.Env && e.HarnessErr == "" && len(e.Violations) == 0 {
 		for i := 0; i < n; i++ {
-			x := FreeRun(u.Sc, dir)
+			xc := make(chan *Exec, 1)
+			go func() { xc <- FreeRun(u.Sc, dir) }()
+			var x *Exec
+			select {
+			case x = <-xc:
+			case <-time.After(180 * time.Second):
+				e.HarnessErr = "a free-running execution did not finish within 180s although the bounded exploration found no deadlock"
+			}
+			if x == nil {
+				break
+			}
 			freeRuns++
 			for _, v := range u.Check(x) {
 				if e.sigSeen[v.Sig] > 0 {
